@@ -92,6 +92,22 @@ def main():
             fresh_tr[key] = t.transform(probe[:, 0].copy(), probe[:, 1].copy())
         return fresh_tr[key]
 
+    epsg_cache = {}
+
+    def want_epsg(spec):
+        """pyproj's own answer for the spec (object built here, never seen by odc-geo)"""
+        k = json.dumps(spec)
+        if k not in epsg_cache:
+            kind, x = spec
+            if kind in ("int", "pyproj-epsg"):
+                p = pyproj.CRS.from_epsg(x)
+            elif kind == "dict":
+                p = pyproj.CRS.from_dict(dicts[x])
+            else:
+                p = pyproj.CRS.from_user_input(texts[x])
+            epsg_cache[k] = p.to_epsg()
+        return epsg_cache[k]
+
     def made(v, c, sysn, spec):
         V[v] = c
         vsys[v] = sysn
@@ -192,6 +208,7 @@ def main():
                 v = op[1]
                 was_unset = V[v]._epsg == 0
                 e = V[v].epsg
+                records.append({"k": "epsg", "got": e, "want": want_epsg(vspec[v]), "spec": vspec[v]})
                 if was_unset:
                     vlazy[v] = True
                 obs.append("e:" + ("N" if e is None else str(e)))
@@ -208,6 +225,9 @@ def main():
                 obs.append("T" if r else "F")
             else:
                 obs.append("bad-op")
+        except KeyError:
+            # a variable that was never assigned (its construction was rejected): the model says ValueError
+            obs.append("ERR:ValueError")
         except Exception as e:  # pylint: disable=broad-except
             obs.append(err(e))
 
